@@ -16,7 +16,7 @@ use crate::util::{fnv, hex, par_fold, show, unhex};
 
 pub fn corpus(thorough: bool) -> Vec<(F, Vec<u8>)> {
 	let mut v: Vec<(F, Vec<u8>)> = vec![];
-	let lim = if thorough { 4000 } else { 400 };
+	let lim = if thorough { 20_000 } else { 1200 };
 	for f in F::ALL {
 		for s in gen::seeds(f) {
 			if s.len() <= lim {
@@ -157,7 +157,7 @@ pub fn run(ctx: &Ctx) -> CheckOutput {
 	let corpus = corpus(thorough);
 	let d_short = if thorough { 3 } else { 2 };
 	let tallies = par_fold(&corpus, Tally::default, |t, idx, (src, input)| {
-		let chunks: &[usize] = if thorough { &[0, 1, 2, 3, 7] } else { &[0, 1, 3] };
+		let chunks: &[usize] = if thorough { &[0, 1, 2, 3, 7, 4096] } else { &[0, 1, 2, 3, 7] };
 		for from in [Some(*src), None] {
 			for to in F::ALL {
 				let clean = run_reader(ChunkReader::new(input, 0), from, to);
@@ -174,11 +174,11 @@ pub fn run(ctx: &Ctx) -> CheckOutput {
 				}
 				t.count(if clean.ok { "reader-fault:fault-free-ok" } else { "reader-fault:fault-free-err" });
 				// --- schedule deviations before/around the fault (explorer offers 'fail' at each read)
-				if thorough || input.len() <= 64 {
+				if thorough || input.len() <= 120 {
 					let marks = newline_marks(input);
 					let pol = crate::env::ReadPolicy { chunk: 0, faults: true, sizes: true, marks: marks.clone() };
 					let dd = if thorough { 3 } else { 2 };
-					let st = explore(dd, 4000, |env| {
+					let st = explore(dd, 40_000, |env| {
 						let r = run_reader(SchedReader::new(input, env, pol.clone()), from, to);
 						t.evaluations += 1;
 						let faulted = env.borrow().log.iter().any(|&(k, n)| k == crate::env::K_READ && n == -1);
@@ -225,7 +225,7 @@ pub fn run(ctx: &Ctx) -> CheckOutput {
 				}
 				t.add("writer-fault:points", clean.out.len() as u64);
 				for wchunk in [0usize, 1] {
-					let st = explore(if wchunk == 0 { d_short } else { 0 }, 3000, |env| {
+					let st = explore(if wchunk == 0 { d_short } else { 0 }, 30_000, |env| {
 						let (w, acc) = SchedWriter::new(env, WritePolicy { shorts: true, faults: false, chunk: wchunk });
 						let (ok, err, panic) = run_reader_to(ChunkReader::new(input, 0), from, to, w);
 						t.evaluations += 1;
